@@ -9,6 +9,7 @@ import (
 	"go/ast"
 	"go/token"
 	"sort"
+	"strings"
 
 	"verif/harness/xlib"
 )
@@ -497,6 +498,18 @@ func main() {
 	}
 
 	out := xlib.NewOut("C06", f.Path)
+	// what the two accessors return: Dependencies() everything resolved, BuildDependencies() with a filter on how the
+	// dependency was declared (statement by statement, receiver = T)
+	bt := xlib.Parse("src/core/build_target.go")
+	for _, nm := range []string{"Dependencies", "BuildDependencies"} {
+		fd := bt.Func("BuildTarget." + nm)
+		recv := fd.Recv.List[0].Names[0].Name
+		def := "accessorDependencies"
+		if nm == "BuildDependencies" {
+			def = "accessorBuildDependencies"
+		}
+		out.Def(def, "List String", xlib.LeanStrList(stmts(bt, fd, map[string]string{recv: "T"})))
+	}
 	out.Def("persistPre", "Bool", xlib.LeanBool(persists(pre)))
 	out.Def("persistPost", "Bool", xlib.LeanBool(persists(post)))
 	out.Def("detectorCollectionFields", "List String", xlib.LeanStrList(mapFields))
@@ -518,6 +531,149 @@ func main() {
 	out.Def("topVisitsLoopVar", "Bool", xlib.LeanBool(topVisitsLoopVar))
 	out.Def("topReturnsResult", "Bool", xlib.LeanBool(topReturnsResult))
 	out.Write()
+}
+
+func paramNames(fn *ast.FuncDecl) []string {
+	var out []string
+	for _, fl := range fn.Type.Params.List {
+		for _, nm := range fl.Names {
+			out = append(out, nm.Name)
+		}
+	}
+	return out
+}
+
+func norm(f *xlib.File, n ast.Node, roles map[string]string) string {
+	s := f.Src(n)
+	var b strings.Builder
+	cur := ""
+	flush := func() {
+		if r, ok := roles[cur]; ok {
+			b.WriteString(r)
+		} else {
+			b.WriteString(cur)
+		}
+		cur = ""
+	}
+	for _, c := range s {
+		if c == '_' || (c >= 'a' && c <= 'z') || (c >= 'A' && c <= 'Z') || (c >= '0' && c <= '9') {
+			cur += string(c)
+		} else {
+			flush()
+			b.WriteRune(c)
+		}
+	}
+	flush()
+	return b.String()
+}
+
+// withLocals extends roles with positional names v1, v2, … for every identifier declared inside fn (by :=,
+// range or if-init), in source order, so that renaming a local does not change the facts.
+// withLocals extends roles with positional names v1, v2, … for every identifier declared inside fn (by :=,
+// range or if-init), in source order, so that renaming a local does not change the facts.
+func withLocals(fn *ast.FuncDecl, roles map[string]string) map[string]string {
+	return withLocalsNode(fn.Body, roles)
+}
+
+// withLocalsNode numbers the locals declared inside one statement (numbering restarts per statement, so a rename
+// in one loop does not shift the names in another).
+// withLocalsNode numbers the locals declared inside one statement (numbering restarts per statement, so a rename
+// in one loop does not shift the names in another).
+func withLocalsNode(body ast.Node, roles map[string]string) map[string]string {
+	out := map[string]string{}
+	for k, v := range roles {
+		out[k] = v
+	}
+	k := 0
+	decl := func(e ast.Expr) {
+		if id, ok := e.(*ast.Ident); ok && id.Name != "_" {
+			if _, seen := out[id.Name]; !seen {
+				k++
+				out[id.Name] = "v" + string(rune('0'+k/10)) + string(rune('0'+k%10))
+			}
+		}
+	}
+	ast.Inspect(body, func(n ast.Node) bool {
+		switch x := n.(type) {
+		case *ast.AssignStmt:
+			if x.Tok == token.DEFINE {
+				for _, l := range x.Lhs {
+					decl(l)
+				}
+			}
+		case *ast.RangeStmt:
+			if x.Tok == token.DEFINE {
+				if x.Key != nil {
+					decl(x.Key)
+				}
+				if x.Value != nil {
+					decl(x.Value)
+				}
+			}
+		}
+		return true
+	})
+	return out
+}
+
+// callsTo lists, in source order, the normalised calls to function `name` inside n.
+func isLogCall(s ast.Stmt) bool {
+	es, ok := s.(*ast.ExprStmt)
+	if !ok {
+		return false
+	}
+	c, ok := es.X.(*ast.CallExpr)
+	if !ok {
+		return false
+	}
+	sel, ok := c.Fun.(*ast.SelectorExpr)
+	return ok && ident(sel.X) == "log"
+}
+
+func stmts(f *xlib.File, fn *ast.FuncDecl, roles0 map[string]string) []string {
+	// locals declared at the top level of the function body get stable names F1, F2, … (they are used across
+	// statements); locals of nested blocks are numbered per statement
+	roles := map[string]string{}
+	for k, v := range roles0 {
+		roles[k] = v
+	}
+	k := 0
+	name := func(e ast.Expr) {
+		if id, ok := e.(*ast.Ident); ok && id.Name != "_" {
+			if _, seen := roles[id.Name]; !seen {
+				k++
+				roles[id.Name] = "F" + string(rune('0'+k))
+			}
+		}
+	}
+	for _, s := range fn.Body.List {
+		switch st := s.(type) {
+		case *ast.AssignStmt:
+			if st.Tok == token.DEFINE {
+				for _, l := range st.Lhs {
+					name(l)
+				}
+			}
+		case *ast.DeclStmt:
+			if gd, ok := st.Decl.(*ast.GenDecl); ok {
+				for _, sp := range gd.Specs {
+					if vs, ok := sp.(*ast.ValueSpec); ok {
+						for _, n := range vs.Names {
+							name(n)
+						}
+					}
+				}
+			}
+		}
+	}
+	var out []string
+	for _, s := range fn.Body.List {
+		if isLogCall(s) {
+			continue
+		}
+		out = append(out, norm(f, s, withLocalsNode(s, roles)))
+	}
+	return out
 }
 
 func splitColon(s string) []string {
